@@ -56,6 +56,8 @@ func judge(prop string, sc Scenario, out *Outcome, res *core.CaseResult, faultKi
 			class = "stuck-in-transfer"
 		case strings.Contains(out.Reason, "listed by"):
 			class = "stays-duplicated"
+		case strings.Contains(out.Reason, "assigned but not scraped"):
+			class = "assigned-but-not-scraped"
 		case strings.Contains(out.Reason, "scraped by no shard"):
 			class = "stays-unscraped"
 		case strings.Contains(out.Reason, "oversized"):
@@ -144,7 +146,7 @@ type faultVariant struct {
 
 var faultVariants = []faultVariant{
 	{"dropPost", 1}, {"loseAck", 1}, {"restart", 1}, {"unready", 1}, {"unready", 2}, {"failStatus", 1}, {"failStatus", 2},
-	{"failRuntime", 1}, {"staleHash", 1}, {"staleHash", 2}, {"removeTail", 1},
+	{"failRuntime", 1}, {"staleHash", 1}, {"staleHash", 2}, {"removeTail", 1}, {"promDown", 1}, {"promDown", 2},
 }
 
 const c06Perturbed = 8
@@ -259,8 +261,8 @@ func init() {
 		ID:    "C06",
 		Level: "fault_enumeration",
 		Rule: "same closed loop as C03; 6 fixed small base schedules (first assignment with scale-up; relief of an overloaded shard; scale-down emptying the tail; steady state with late pods, kept volumes, head residue; relief whose overload ends while the moves are under way; a chained move: the relief destination becomes overloaded itself while the first source, scraping rarely, has not finished the hand-over), 8 perturbed cycles each; " +
-			"fault alphabet injected at harness-owned boundaries, each armed for exactly the cycle(s) stated: target POST not delivered, POST delivered but answer lost, sidecar restart from its store, shard not ready for 1-2 cycles, status GET failing 1-2 cycles, runtime GET failing, config hash out of sync with rejected push for 1-2 cycles, tail shard removed while holding targets (+ late new shards via the schedule); " +
-			"enumeration: EVERY placement of one fault (11 variants x 8 cycles x shard 0..2) on four schedules (thorough: all six), a strided third on the others, 200 seed-sampled pairs (thorough: every pair on the three relief schedules + 3000 sampled triples); after the last fault the C03 predicate must be reached within B quiet cycles and stay for 5; " +
+			"fault alphabet injected at harness-owned boundaries, each armed for exactly the cycle(s) stated: target POST not delivered, POST delivered but answer lost, sidecar restart from its store, shard not ready for 1-2 cycles, status GET failing 1-2 cycles, runtime GET failing, the shard's Prometheus answering nothing for 1-2 cycles (its reload and head-series query fail inside the sidecar), config hash out of sync with rejected push for 1-2 cycles, tail shard removed while holding targets (+ late new shards via the schedule); " +
+			"enumeration: EVERY placement of one fault (13 variants x 8 cycles x shard 0..2) on four schedules (thorough: all six), a strided third on the others, 200 seed-sampled pairs (thorough: every pair on the three relief schedules + 3000 sampled triples); after the last fault the C03 predicate must be reached within B quiet cycles and stay for 5; " +
 			"plus the restart fault on the REAL `kvass sidecar` process (8 / 64 cases, configuration pushed or from --config.file): assigned, killed, started twice more on the same volume, configuration pushed again as the coordinator would, no targets posted - the file given to Prometheus must list exactly the resumed targets in every life; " +
 			"plus 4/32 runs of the real processes (real coordinator binary, three real sidecar binaries) with a sidecar killed and restarted, the coordinator killed and restarted, or a shard unreachable for five cycles in the middle; " +
 			"non-trivial = a fault was really applied (or the control); distinct = (schedule, fault placements)",
